@@ -334,16 +334,16 @@ def classify(failure):
         return "sss-shift-after-lossy-index-format"
     # items outside C03's conformance conditions (TextConf), one family at a time: the written line is legitimately re-read with
     # displaced fields, and the displaced fields move again (or oscillate) in the following cycles
+    # (the fourth family is judged more narrowly: a re-split at another colon MOVES text between value and description, it adds or
+    # loses none; a drift that changes the characters of a colon-bearing value is something else)
     fams = [("numeric-unit-swallows-value", lambda p: re.match(r"^\d+($| )", p[2]) is not None),
-            ("unit-leading-period", lambda p: p[2].startswith(".") or p[0].endswith(".")),
+            ("unit-leading-period", lambda p: p[2].startswith(".") or p[0].endswith(".") or (p[3][0] == "s" and p[3][1].startswith("."))),
             ("blank-mnemonic-period", lambda p: p[0].strip() == ""),
             ("colon-in-field", lambda p: ":" in p[3][1] or ":" in p[4] or ":" in p[2])]
-    # every one of these families MOVES text between the fields of an item (the characters of the written line are the same, they
-    # are split differently); a drift that adds or loses other characters is not one of them
-    if not all(conserved(e) for e in items):
-        return None
     for kid, test in fams:
         if all(test(e[1]) or test(e[2]) for e in items):
+            if kid == "colon-in-field" and not all(conserved(e) for e in items):
+                return None
             return kid
     # the input held a blank mnemonic on a line with a further period: its FIRST output was already read differently (unit and
     # value displaced), and an empty value next to the displaced unit becomes 0 in the second cycle
@@ -398,8 +398,12 @@ def context(L, cfg, first_refresh=None):
         # write refreshed them ('%.5f' of the index in memory) and the index column is printed with a coarser format, or it did
         # not refresh them (the file's STOP equals the unrounded index) and the column format rounds the index.  A first write that
         # refreshes with the precision of the index column leaves nothing to drift.
+        # (an explicit STOP= that does not state the last index value makes every write refresh again: STEP is then computed from the
+        # unrounded index in the first cycle and from the re-read, rounded one in the second)
+        sss = cfg.get("sss")
+        stop_given = bool(sss) and sss[1][0] != "none"
         out["index_format_lossy"] = any(float("%.5f" % x) != float(cf % x) for x in probe) or \
-            (not first_refresh and any(float(cf % x) != x for x in probe))
+            ((not first_refresh or stop_given) and any(float(cf % x) != x for x in probe))
     except Exception:
         out["index_format_lossy"] = False
     return out
